@@ -27,7 +27,7 @@ for pid in props:
 m = {
  "version": 1,
  "setup_cmd": "./setup.sh",
- "hooks": {"guard": "verif", "enable": "contracts are comment-only files src/**/zz_verif_contracts.go with //go:build verif; govc loads /repo with -tags=verif",
+ "hooks": {"guard": "verif", "enable": "contracts are files src/**/zz_verif_contracts*.go with //go:build verif, comment-only except src/visor/blockdb/zz_verif_contracts_pool.go, which also declares one never-used package variable (ghostUnspentPool: the unspent bucket as a map, for contracts); govc loads /repo with -tags=verif",
            "baseline_off_cmd": "cd /repo && go test -vet=off -count=1 -timeout 25m ./...",
            "source_commits": hook_commits, "add_only": True},
  "engines": [{"name": "govc", "path": "/verif/govc", "serves_properties": [c['property_id'] for c in checks],
